@@ -33,6 +33,14 @@ everything must be empty through every handle — `with_current` is read through
 for every instance and compared with the model *as a first-wins map*. Events emitted through the
 instance's runtime at seeded points must carry exactly the model's map as ambient properties.
 
+Dropping a frame-wrapped future (after it completed, after a panic, or cancelled after exactly
+0, 1 or 2 polls / at a seeded suspension, possibly nested several frames deep) is a program point
+too: the futures hold probe values whose destructors look at the ambient state. While the inner
+future of a `FrameFuture` is dropped its frame is the innermost active one (what completes during
+a cancellation still sees the frame), nested wrapped futures inside it see their own frames, and
+after the drop everything is exactly as before it. A fixed fragment with such cancellations is
+run by every process (so by every Miri seed) before the generated programs.
+
 For traceparent instances the model is extended by one traceparent stack per thread (shared by
 all traceparent instances, as the crate documents): a frame's traceparent is fixed when it is
 created (own ids: a new traceparent, child of the one active at creation if any; no own ids: a
